@@ -881,10 +881,13 @@ pub fn run(ctx: &Ctx, rep: &mut Report) {
         };
         let mut out = s.run(&script);
         // the one order that scheduling could disturb is repeated once in isolation before it counts
-        if matches!(&out.violation, Some((k, _)) if k == "readyok-after-bestmove") {
-            rep.count("readyok_order_retries", 1);
-            if let Ok(s2) = Session::new(&bin, &wrapper) {
-                out = s2.run(&script);
+        for _ in 0..2 {
+            if matches!(&out.violation, Some((k, _)) if k == "readyok-after-bestmove") {
+                rep.count("readyok_order_retries", 1);
+                std::thread::sleep(std::time::Duration::from_millis(500));
+                if let Ok(s2) = Session::new(&bin, &wrapper) {
+                    out = s2.run(&script);
+                }
             }
         }
         judge(&script, &out, "", rep);
